@@ -283,22 +283,61 @@ func c18Accumulators(c *Ctx, r *Report) {
 		r.fail("C18-R3-accumulators", "uint32Accumulator", "", "type not found")
 		return
 	}
-	// accumulate shape
-	if fd := c.decl(c.fn(c.fit, "uint32Accumulator.accumulate")); fd != nil && len(fd.Body.List) == 3 {
-		s0 := strings.ReplaceAll(stmtStr(c, fd.Body.List[0]), " ", "")
-		s1 := strings.ReplaceAll(stmtStr(c, fd.Body.List[1]), " ", "")
-		s2 := strings.ReplaceAll(stmtStr(c, fd.Body.List[2]), " ", "")
-		ok := s0 == "a.accumuValue+=(value-a.lastValue)&a.mask" && s1 == "a.lastValue=value" && s2 == "returna.accumuValue"
-		r.check(ok, "C18-R3-accumulators", "accumulate", c.pos(fd.Pos()), "acc += (v - last) & mask; last = v; return acc", "accumulate is not `acc += (v - last) & mask; last = v; return acc` (found: "+s0+"; "+s1+"; "+s2+")")
+	// accumulate: decided on the SSA terms, independent of field/parameter names and spelling:
+	// some fields A (sum), L (last), M (mask) with  A' = A + ((v - L) & M),  L' = v,  return A'.
+	st, _ := accT.Type().Underlying().(*types.Struct)
+	roleA, roleM := -1, -1
+	if fn := c.ssaFn(c.fn(c.fit, "uint32Accumulator.accumulate")); fn != nil && st != nil {
+		res := symExec(fn, nil, 0)
+		found := ""
+		if res.why == "" && len(res.rets) == 1 {
+			for a := 0; a < st.NumFields(); a++ {
+				for l := 0; l < st.NumFields(); l++ {
+					for m := 0; m < st.NumFields(); m++ {
+						if a == l || a == m || l == m {
+							continue
+						}
+						cell := func(i int) string { return fmt.Sprintf("*p0.f%d", i) }
+						sub := fmt.Sprintf("(- p1 %s)", cell(l))
+						x, y := sub, cell(m)
+						if y < x {
+							x, y = y, x
+						}
+						and := fmt.Sprintf("(& %s %s)", x, y)
+						x, y = cell(a), and
+						if y < x {
+							x, y = y, x
+						}
+						sum := fmt.Sprintf("(+ %s %s)", x, y)
+						if res.mem[fmt.Sprintf("p0.f%d", a)] == sum && res.mem[fmt.Sprintf("p0.f%d", l)] == "p1" && res.rets[0] == sum && len(res.mem) == 2 {
+							roleA, roleM = a, m
+							found = fmt.Sprintf("sum=%s last=%s mask=%s", st.Field(a).Name(), st.Field(l).Name(), st.Field(m).Name())
+						}
+					}
+				}
+			}
+		}
+		var got []string
+		for k, v := range res.mem {
+			got = append(got, k+" := "+v)
+		}
+		sort.Strings(got)
+		r.check(found != "", "C18-R3-accumulators", "accumulate", c.pos(fn.Pos()), "sum += (v - last) & mask; last = v; return sum ("+found+")", "accumulate is not `sum += (v - last) & mask; last = v; return sum` (found: "+strings.Join(got, "; ")+"; return "+strings.Join(res.rets, ",")+" "+res.why+")")
 	} else {
-		r.undecided("C18-R3-accumulators", "accumulate", "", "accumulate is not three statements")
+		r.undecided("C18-R3-accumulators", "accumulate", "", "uint32Accumulator.accumulate not found")
 	}
-	if fd := c.decl(c.fn(c.fit, "uint32NewAccumulator")); fd != nil && len(fd.Body.List) == 1 {
-		s := strings.ReplaceAll(stmtStr(c, fd.Body.List[0]), " ", "")
-		ok := strings.Contains(s, "mask:(1<<bits)-1")
-		r.check(ok, "C18-R3-accumulators", "uint32NewAccumulator", c.pos(fd.Pos()), "mask = 2^bits - 1", "uint32NewAccumulator does not set mask to (1 << bits) - 1")
+	_ = roleA
+	if fn := c.ssaFn(c.fn(c.fit, "uint32NewAccumulator")); fn != nil && roleM >= 0 {
+		res := symExec(fn, nil, 0)
+		ok := res.why == "" && len(res.rets) == 1 && res.rets[0] == "new0" && res.mem[fmt.Sprintf("new0.f%d", roleM)] == "(- (<< 1 p0) 1)"
+		for k, v := range res.mem {
+			if k != fmt.Sprintf("new0.f%d", roleM) && v != "0" {
+				ok = false
+			}
+		}
+		r.check(ok, "C18-R3-accumulators", "uint32NewAccumulator", c.pos(fn.Pos()), "mask = 2^bits - 1, sum and last start at 0", fmt.Sprintf("uint32NewAccumulator does not return a fresh accumulator with mask (1 << bits) - 1 and zero sum/last (stores: %v %s)", res.mem, res.why))
 	} else {
-		r.undecided("C18-R3-accumulators", "uint32NewAccumulator", "", "shape")
+		r.undecided("C18-R3-accumulators", "uint32NewAccumulator", "", "constructor not found or mask field not identified")
 	}
 	_ = info
 	// every allocation of an accumulator outside uint32NewAccumulator
